@@ -152,6 +152,18 @@ type namedBytes []byte
 type chainRun struct {
 	events []*Sx
 	cancel func()
+	rot    int // added to the position of a scripted panic value in rotSet: the values differ from request to request
+}
+
+var rotSet = []int{1, 2, 4, 6, 5} // string, error, struct, string, http.ErrAbortHandler
+
+func rotValue(k, v int) int {
+	for i, x := range rotSet {
+		if x == v {
+			return rotSet[(i+k)%len(rotSet)]
+		}
+	}
+	return v
 }
 
 func (cr *chainRun) log(e *Sx) { cr.events = append(cr.events, e) }
@@ -236,7 +248,7 @@ func scriptedHandler(cr **chainRun, i int, h *Sx) flamego.Handler {
 				}()
 				*cr = saved
 			case "panic":
-				v := a.Args()[0].Int()
+				v := rotValue(r.rot, a.Args()[0].Int())
 				if v == 3 {
 					var m map[string]int
 					m["x"] = 1 // runtime error
@@ -293,6 +305,24 @@ func scriptedHandler(cr **chainRun, i int, h *Sx) flamego.Handler {
 			}
 			s := ret[0].Args()[0].Bytes()
 			return &s
+		}
+	case "ptrb,": // a []byte behind a pointer, or behind an interface{}: dereferenced, then a byte slice like any other
+		if named {
+			return func(c flamego.Context) interface{} {
+				body(c)
+				if ret[0].Args()[0].Atom == "nil" {
+					return nil
+				}
+				return mkBytes(ret[0].Args()[0])
+			}
+		}
+		return func(c flamego.Context) *[]byte {
+			body(c)
+			if ret[0].Args()[0].Atom == "nil" {
+				return nil
+			}
+			b := mkBytes(ret[0].Args()[0])
+			return &b
 		}
 	case "int,str,":
 		if teapot && len(acts) == 0 {
@@ -412,6 +442,9 @@ func runChain(in *Sx) *Sx {
 	var results []*Sx
 	for k := 0; k < reps; k++ {
 		cur = &chainRun{}
+		if rt := in.Field("rot"); rt != nil && rt.Args()[0].Atom == "1" {
+			cur.rot = k
+		}
 		sc := &scriptCtx{Context: gocontext.Background(), done: make(chan struct{}), kind: gocontext.Canceled}
 		if deadline {
 			sc.kind = gocontext.DeadlineExceeded // the request context ends by its deadline, not by cancel()
@@ -460,7 +493,7 @@ func runChain(in *Sx) *Sx {
 
 // ---- generators ----
 
-var chainCodes = []int{200, 201, 204, 301, 404, 418, 500, 700, 999} // 700, 999: legal for net/http, no standard text
+var chainCodes = []int{200, 201, 204, 301, 404, 418, 500, 700, 999, 599, 600} // 700, 999: legal for net/http, no standard text
 
 var genExtras = false // C03/C14: also sub-requests and request-scoped ReturnHandlers
 var genWrap = false   // C14/C15: also handlers that re-map http.ResponseWriter to a marking wrapper
@@ -553,8 +586,13 @@ func genRet(rng *rand.Rand, rich bool) []*Sx {
 	case 7:
 		return []*Sx{byt(), er()}
 	}
-	if rng.Intn(2) == 0 {
+	switch rng.Intn(5) {
+	case 0:
 		return []*Sx{T("ptr", A("nil"))}
+	case 1:
+		return []*Sx{T("ptrb", A("nil"))}
+	case 2:
+		return []*Sx{T("ptrb", X([]string{"", "pb", "\x00\xff"}[rng.Intn(3)]))}
 	}
 	return []*Sx{T("ptr", X("pv"))}
 }
@@ -676,7 +714,11 @@ func genC15(rng *rand.Rand, n int, tier string, emit func(*Sx)) {
 		if rng.Intn(2) == 0 {
 			action = genHandler(rng, 1, rng.Intn(2) == 0, false, false)
 		}
-		emit(chainInput(rng, mw, route, groups, action, 1+rng.Intn(3)))
+		ci := chainInput(rng, mw, route, groups, action, 1+rng.Intn(3))
+		if rng.Intn(3) == 0 {
+			ci.List = append(ci.List, T("rot", B(true)))
+		}
+		emit(ci)
 	}
 }
 
